@@ -140,8 +140,8 @@ func init() {
 		Technique: "emitted-brace typestate over the template functions (all schemas) + compile-fail witness: the working-tree generator is run as a build step on a schema corpus and its output is type-checked with go/types",
 		DesignRef: "DESIGN.md 3.12, 4 C12",
 		LevelText: "T.brace: every function of the template packages that emits code is abstractly interpreted with state = net braces/parens of the constant text it emits; branch conditions over never-reassigned locals are enumerated as atoms, switch arms are nondeterministic; all paths of a function must agree, loop bodies and root emitters must be balanced - this holds for all schemas, not only the corpus. GEN.*: the generator built from the working tree must answer every corpus schema (kind x shape matrix, 1..5-byte tags, interleaved oneofs, nesting/recursion, cross-package imports, well-known types, name collisions, sparse enums, the schemas embedded in the checked-in files) with sources that type-check (thorough: also GOARCH=386 and the full 12x17 map matrix), an unknown feature with an error, proto2 / unrequested files with no output. The emitted code is only analysed, never run; the codec engines of C01-C04/C06/C14 (SIZE, ENC, DEC, DET, UNK, BND) are applied to everything the working-tree generator emitted, so a template change that breaks a wire-format clause for some kind x shape x tag-width cell of the corpus is reported here as well. Not decided: totality for schemas outside the corpus beyond T.*; M/paths= parameter handling is protogen's.",
-		Engines:      E{tmpl.RunBrace, tmpl.RunNames, tmpl.RunImports, tmpl.RunKinds, tmpl.RunFlow, tmpl.RunDetPure, tmpl.RunS2, codec.RunSize, codec.RunEnc, codec.RunDec},
-		RulePrefixes: []string{"T.brace", "T.names", "T.imports", "T.kinds", "T.flow", "T.pure", "T.anchor", "GEN", "G.model", "G.anchor", "SIZE", "ENC", "DEC", "DET", "UNK.default", "BND"},
+		Engines:      E{tmpl.RunBrace, tmpl.RunNames, tmpl.RunImports, tmpl.RunKinds, tmpl.RunFlow, tmpl.RunDetPure, tmpl.RunS2, codec.RunSize, codec.RunEnc, codec.RunDec, refl.RunCoh},
+		RulePrefixes: []string{"COH.md", "COH.gotypes", "COH.depidx", "COH.builder", "COH.msgindex", "COH.msginfo", "COH.initchain", "COH.ext", "T.brace", "T.names", "T.imports", "T.kinds", "T.flow", "T.pure", "T.anchor", "GEN", "G.model", "G.anchor", "SIZE", "ENC", "DEC", "DET", "UNK.default", "BND"},
 		Floors: []core.Floor{
 			{Rule: "T.brace", Min: 60, Why: "emitting template functions"},
 			{Rule: "T.names", Min: 19, Why: "16 methods + 3 structure rules"},
@@ -234,8 +234,8 @@ func init() {
 		Technique: "structural rules on the default arm of every decoder (rewind, Skip, exact slice append under !DiscardUnknown, advance), on marshal/size unknown blocks, on GetUnknown/SetUnknown, and the option mapping of DiscardUnknown",
 		DesignRef: "DESIGN.md 4 C14",
 		LevelText: "For every generated type: the decoder has exactly one arm per schema field (so no known field reaches the default arm and no unknown number is decoded as a field); the default arm rewinds to the record start, measures the record with runtime.Skip (whose per-wire-type advance is decided in C15), appends exactly dAtA[start:start+n] to x.unknownFields iff !options.DiscardUnknown, and advances by n; options come from runtime.UnmarshalInputToOptions which maps the flag and is handed to every nested decode; marshal writes x.unknownFields first into the back-filled buffer (last on the wire) verbatim and size counts len(x.unknownFields); GetUnknown/SetUnknown read and replace exactly that field. Not decided: a known number arriving with a foreign wire type is rejected, not kept as unknown (outside well-typed streams).",
-		Engines:      E{codec.RunDec, codec.RunEnc, codec.RunSize, codec.RunUnkAccessors, codec.RunOpts, codec.RunSkip, refl.RunCoh},
-		RulePrefixes: []string{"COH.msgindex", "UNK", "DEC.cases", "DEC.flags", "DEC.walk", "ENC.unknown", "ENC.order", "ENC.walk", "SIZE.unknown", "SIZE.walk", "OPTS.discard", "L.skip", "G.model", "G.anchor", "GEN.build"},
+		Engines:      E{codec.RunDec, codec.RunEnc, codec.RunSize, codec.RunUnkAccessors, codec.RunOpts, codec.RunSkip, refl.RunCoh, refl.RunNil},
+		RulePrefixes: []string{"COH.msgindex", "NIL.msgmut", "UNK", "DEC.cases", "DEC.flags", "DEC.walk", "ENC.unknown", "ENC.order", "ENC.walk", "SIZE.unknown", "SIZE.walk", "OPTS.discard", "L.skip", "G.model", "G.anchor", "GEN.build"},
 		Floors: []core.Floor{
 			{Rule: "UNK.default", Min: 50, Why: "message types"},
 			{Rule: "UNK.accessors", Min: 100, Why: "2 per message type"},
